@@ -7,9 +7,14 @@ first, interleaving - is a solver choice, the payload is a fixed non-UTF-8
 byte pool.  Byte *values* are not symbolic (they cross real pipes and files);
 the claim is over chunk schedules and lengths.
 """
+import array
+import fcntl
 import hashlib
 import json
 import os
+import sys
+import termios
+import time
 
 from vlib import fakeos, hrun
 from vlib.hrun import TaskSpec
@@ -181,30 +186,58 @@ def scale_fn(g):
     import conductor.cli.run as cli_run
     parallel = g.flag("parallel_slot")
     both = g.flag("both_streams")
-    piece = (4096, 5000, 65536)[g.choose("piece", 3)]
-    total = (1 << 20) + 123
+    piece = (4096, 5000, 65536, 3)[g.choose("piece", 4)]
+    # 3-byte pieces: 20000 separate writes (60000 bytes: less than one pipe buffer) while whoever reads cond's own stdout is
+    # not reading; it resumes once the task has written everything
+    stalled = piece == 3
+    if stalled and parallel:
+        return {"nontrivial": False, "sample": None}
+    total = 60000 if stalled else (1 << 20) + 123
     data_out = pool(total, 5)
     data_err = pool(total // 2 + 7, 6) if both else b""
+    import threading
+    release = threading.Event()
     proj = hrun.Project()
     try:
-        proj.write_tasks([TaskSpec("e", "run_experiment", [], par=parallel, run="./exp.sh")])
+        big_args = ["the quick brown fox jumps over the lazy dog %d" % i if i % 4 == 0 else (i * 7 if i % 4 == 1 else (i + 0.5 if i % 4 == 2 else bool(i % 8 == 3)))
+                    for i in range(32)] + ["w" * 300, "tab\there", "  two  spaces  ", "-", "--", "a,b", '"quoted" words here', "x" * 79 + " y"]
+        big_opts = {"opt_%02d" % i: big_args[i] for i in range(24)}
+        big_opts["long-words"] = " ".join(["word"] * 60)
+        proj.write_tasks([TaskSpec("e", "run_experiment", [], par=parallel, run="./exp.sh", args=big_args, options=big_opts)])
 
         class S(fakeos.Sched):
-            def status_for(self, kernel, proc):
-                import threading
+            def on_spawn(self, kernel, proc):
+                if stalled:
+                    sys.stdout.stall = release
+                    sys.stderr.stall = release
 
+            def status_for(self, kernel, proc):
                 def writer(which, data):
+                    misses = 0
                     for i in range(0, len(data), piece):
                         kernel.child_write(proc, which, data[i:i + piece])
+                        if stalled and misses < 3:
+                            # let the reader of the pipe take this piece before the next one is written (bounded wait)
+                            end = time.perf_counter() + 0.02
+                            buf = array.array("i", [1])
+                            while time.perf_counter() < end:
+                                fcntl.ioctl(proc.fds[which], termios.FIONREAD, buf)
+                                if buf[0] == 0:
+                                    break
+                                time.sleep(0)
+                            misses = misses + 1 if buf[0] else 0
                 ts = [threading.Thread(target=writer, args=("out", data_out))] + ([threading.Thread(target=writer, args=("err", data_err))] if both else [])
                 for t in ts:
                     t.start()
                 for t in ts:
                     t.join()
+                release.set()
                 return fakeos.StatusExited(0)
         kern = fakeos.Kernel(S(), clock=fakeos.Clock())
         res = hrun.invoke(cli_run.main, hrun.run_ns(task_identifier="//:e", jobs=2 if parallel else None), str(proj.root), kern, timeout=120)
-        D = "1 MiB on stdout%s in pieces of %d bytes, parallel=%s" % (" and 0.5 MiB on stderr" if both else "", piece, parallel)
+        release.set()
+        D = "%d bytes on stdout%s in pieces of %d bytes, parallel=%s%s" % (len(data_out), " and %d on stderr" % len(data_err) if both else "", piece, parallel,
+                                                                          ", cond's own stdout/stderr not read until the task has written everything" if stalled else "")
         if isinstance(res.status, str):
             g.require(False, "log:crash:" + res.status[4:], "%s; %s" % (res.exc, D))
         g.require(res.status == 0, "log:run-failed", "status=%r; %s" % (res.status, D))
@@ -216,7 +249,18 @@ def scale_fn(g):
         if not parallel:
             g.require(res.stdout.forwarded() == data_out and res.stderr.forwarded() == data_err, "log:stdout-not-forwarded-exactly",
                       "forwarded %d/%d bytes; %s" % (len(res.stdout.forwarded()), len(res.stderr.forwarded()), D))
-        g.goal("output of more than one megabyte")
+        for fname, val in (("args.json", big_args), ("options.json", big_opts)):
+            try:
+                got_v = json.load(open(os.path.join(out, fname)))
+                ok = strict_eq(got_v, val)
+            except (ValueError, OSError) as ex_:
+                got_v, ok = "<%s>" % type(ex_).__name__, False
+            g.require(ok, "record:%s-wrong" % fname, "%s decodes to %s..., declared %d values incl. multi-word and 300-character strings; %s" % (
+                fname, repr(got_v)[:200], len(val), D))
+        if not stalled:
+            g.goal("output of more than one megabyte")
+        else:
+            g.goal("twenty thousand small writes while the consumer is stalled")
         return {"nontrivial": True, "sample": {"case": D}}
     finally:
         proj.cleanup()
@@ -224,7 +268,8 @@ def scale_fn(g):
 
 def spaces(tier):
     return [Space("scale-megabyte-output", scale_fn, "1 MiB + 123 bytes on stdout (and 0.5 MiB on stderr, written concurrently) in pieces of 4096 / 5000 / "
-                  "65536 bytes; sequential and parallel slot", depth=3, goals=["output of more than one megabyte"]),
+                  "65536 bytes; sequential and parallel slot; 20000 writes of 3 bytes while cond's own stdout is not being read", depth=3,
+                  goals=["output of more than one megabyte", "twenty thousand small writes while the consumer is stalled"]),
             Space("chunk-schedules", make(),
                   "sequential | parallel slot; stdout 0..3 chunks with lengths from {0,1,4095,4096,4097,65537}; stderr absent or one "
                   "chunk from {0,1,4097}; stderr first / interleaved; 4 args/options decorations", depth=7,
